@@ -128,3 +128,25 @@ package pstoreds
 //@ ensures forall x *pb.AddrBookRecord_AddrEntry :: x != result ==> x.Ttl == old(x.Ttl) && x.Expiry == old(x.Expiry)
 //@ ensures forall x *pb.AddrBookRecord_AddrEntry :: x.Addr == old(x.Addr)
 //@ noframe
+
+// ---------------------------------------------------------------------------
+// entry points of the datastore-backed book (guard level)
+
+// SetAddrs: both the removal (ttl <= 0) and the override work on the cleaned address list (a /p2p suffix naming this
+// very peer is stripped, foreign ones are dropped), exactly like the in-memory book
+//@ func (ab *dsAddrBook) SetAddrs
+//@ prop C09
+//@ ensures called(cleanAddrs, 0) && arg(cleanAddrs, 0, 1) == p
+//@ ensures ttl <= 0 ==> called(deleteAddrs, 0) && !called(setAddrs, 0) && arg(deleteAddrs, 0, 1) == p && arg(deleteAddrs, 0, 2) == ret(cleanAddrs, 0, 0)
+//@ ensures ttl > 0 ==> called(setAddrs, 0) && !called(deleteAddrs, 0) && arg(setAddrs, 0, 1) == p && arg(setAddrs, 0, 2) == ret(cleanAddrs, 0, 0) &&
+//@         arg(setAddrs, 0, 3) == ttl && arg(setAddrs, 0, 4) == ttlOverride
+//@ noinline cleanAddrs, deleteAddrs, setAddrs
+//@ noframe
+
+// the sequence number a new signed record is compared with: that of the stored record, but only while the peer still
+// has addresses (a record without live addresses does not veto anything: it is gone for every reader)
+//@ func (ab *dsAddrBook) latestPeerRecordSeq
+//@ prop C09
+//@ ensures result != 0 ==> called(loadRecord, 0) && ret(loadRecord, 0, 1) == nil && len(pr.Addrs) > 0 && pr.CertifiedRecord != nil &&
+//@         result == pr.CertifiedRecord.Seq
+//@ noframe
